@@ -1,7 +1,7 @@
 (* C10 — property theorems only. Each is closed by [exact] of a lemma proved in C10/Proofs.v. *)
 From Coq Require Import List Arith QArith.
 Import ListNotations.
-From AgileV Require Import Base.Prelude C09.Model C09.Proofs C10.Model C10.Proofs.
+From AgileV Require Import Base.Prelude C09.Model C09.Proofs C10.Model C10.Proofs C10.ProofsResets.
 Local Open Scope nat_scope.
 
 (* Vocabulary (C10/Model.v, C10/Proofs.v).  A stream xs is a list of raw vectorised transitions, one
@@ -176,6 +176,81 @@ Theorem per_batch_shape_repaired :
   forall B, from_indices_shape_repaired (per_idxs_shape B) = per_rows_shape B.
 Proof. exact shape_repaired_agrees. Qed.
 Print Assumptions per_batch_shape_repaired.
+
+(* ---------- several rollouts: env.reset() between the turns of the agents of a population ----------
+   evs_of b segs = Reset b :: steps of rollout 1 ++ Reset b :: steps of rollout 2 ...; b = true: the
+   n-step deque is emptied at the reset (the repair), b = false: it survives (the tree). *)
+
+(* with emptied deques both ring buffers receive, rollout by rollout, only windows that lie inside
+   one rollout (C09 invariant w.r.t. seg_hist_n / seg_hist_1), for any number and length of rollouts *)
+Theorem rollouts_refine_streams : forall g n c E segs,
+  0 < E -> E <= c -> 1 <= n -> Forall (width E) segs ->
+  let s := ev_run (n_step_info g) n c (evs_of true segs) in
+  Inv c (seg_hist_n g n segs) (nbuf s) /\ Inv c (seg_hist_1 n segs) (mem s).
+Proof. exact segs_inv. Qed.
+Print Assumptions rollouts_refine_streams.
+
+(* ... hence no stored record spans a reset: the record stored for window k of rollout [seg] is
+   described by [seg] alone (rewards, next observation, done flag all from [seg]), and stays aligned
+   with the 1-step buffer *)
+Theorem no_record_spans_a_reset : forall g n c E pre seg post k e,
+  0 < E -> E <= c -> 1 <= n -> Forall (width E) (pre ++ seg :: post) ->
+  k + n <= length seg -> e < E ->
+  let segs := pre ++ seg :: post in
+  let p := length (seg_hist_n g n pre) + (k * E + e) in
+  length (seg_hist_n g n segs) <= p + c ->
+  let s := ev_run (n_step_info g) n c (evs_of true segs) in
+  let m := cut (window n seg k) in
+  exists r,
+    nth (p mod c) (store (nbuf s)) None = Some r /\
+    nth (p mod c) (store (mem s)) None = Some (cellat seg k e) /\
+    ok_window n seg e k m /\
+    ob r = ob (cellat seg k e) /\ ac r = ac (cellat seg k e) /\
+    (rw r == disc_sum g seg k e m)%Q /\
+    nx r = nx (cellat seg (k + m - 1) e) /\ dn r = dn (cellat seg (k + m - 1) e).
+Proof. exact segs_stored_spec. Qed.
+Print Assumptions no_record_spans_a_reset.
+
+(* a reset that leaves the deque alone is invisible to the buffers: same state as feeding the
+   concatenated rollouts, so all theorems above apply to the concatenation — windows are formed
+   across the reset *)
+Theorem surviving_deque_ignores_reset : forall info n segs s,
+  fold_left (ev_step info n) (evs_of false segs) s = fold_left (pair_step info n) (concat segs) s.
+Proof. exact evs_false_is_concat. Qed.
+Print Assumptions surviving_deque_ignores_reset.
+
+(* the tree: a record starting in the first rollout carries next observation and reward of the second *)
+Theorem reset_span_refuted :
+  let s := ev_run (n_step_info 1) 3 4 (evs_of false [seg_a; seg_b]) in
+  exists r, nth 0 (store (nbuf s)) None = Some r /\
+            ob r = ob (cellat seg_a 0 0) /\ nx r = nx (cellat seg_b 0 0) /\ (rw r == 1 + 2 + 4)%Q /\
+  size (nbuf (ev_run (n_step_info 1) 3 4 (evs_of true [seg_a; seg_b]))) = 0.
+Proof. exact reset_span. Qed.
+Print Assumptions reset_span_refuted.
+
+(* the stored record does not determine how many steps were summed (cut by another environment,
+   done = false): a learner that bootstraps with gamma^n cannot tell m < n from m = n *)
+Theorem stored_record_carries_no_m :
+  exists g n xs ys e,
+    width 2 xs /\ width 2 ys /\ e < 2 /\
+    cut (window n xs 0) <> cut (window n ys 0) /\
+    let r1 := nth e (n_step_info g (window n xs 0)) dcell in
+    let r2 := nth e (n_step_info g (window n ys 0)) dcell in
+    ob r1 = ob r2 /\ ac r1 = ac r2 /\ (rw r1 == rw r2)%Q /\ nx r1 = nx r2 /\ dn r1 = dn r2 /\ dn r1 = false.
+Proof. exact record_has_no_m. Qed.
+Print Assumptions stored_record_carries_no_m.
+
+(* the prioritised path at the model level: sample_from_indices with the (B,1) index column that
+   PrioritizedReplayBuffer.sample reports returns the same rows, with the same leading shape [B], as
+   with the flat (B,) indices — so sampled_aligned applies to both *)
+Theorem column_indices_same_rows : forall st idx, gather_col st (map (fun i => [i]) idx) = gather st idx.
+Proof. exact gather_col_flat. Qed.
+Print Assumptions column_indices_same_rows.
+
+Theorem column_indices_same_shape : forall B,
+  from_indices_shape_repaired [B] = [B] /\ from_indices_shape_repaired [B; 1] = [B].
+Proof. exact shape_flat_and_col. Qed.
+Print Assumptions column_indices_same_shape.
 
 (* ---------- non-vacuity ---------- *)
 (* two environments, n = 3, capacity 4 (both buffers wrap): env 1 ends at step 1, env 0 at step 3 *)
